@@ -254,6 +254,7 @@ func driveLinkTracker(c *ctx) error {
 		"against the real ResponseAssembler link tracking (streams + transactions); 80% respect the protocol order, 20% free; " +
 		"non-trivial = some block was suppressed as a duplicate or skipped AND some block was sent; distinct = distinct (script, observation) terms"
 	add := func(lc ltCase, tag string) {
+		c.inflight(lc)
 		obs, sends, skips := runLtCase(lc)
 		tags := []string{"kind:" + tag}
 		if skips > 0 {
